@@ -411,12 +411,13 @@ func (p *streamPool) getOrOpenStream() (*Stream, error) {
 		return nil, ErrSessionUnhealthy
 	}
 	for stream := p.pop(); stream != nil; stream = p.pop() {
-		if !stream.Session().IsClosed() {
-			// ensure return an open stream
-			if stream.IsOpen() {
-				return stream, nil
-			}
+		// ensure return an open stream of a live session, which received nothing while it was pooled
+		if !stream.Session().IsClosed() && stream.IsOpen() && stream.recvBuf.Len() == 0 {
+			return stream, nil
 		}
+		// not reusable (closed by the peer or the session meanwhile, or a late response arrived): release it,
+		// otherwise it stays in Session.streams forever.
+		stream.Close()
 	}
 
 	stream, err := p.Session().OpenStream()
